@@ -12,7 +12,9 @@ use std::path::{Path, PathBuf};
 use std::sync::Mutex;
 use std::time::Instant;
 
-pub const VERIF_DIR: &str = "/verif";
+pub fn verif_dir() -> String {
+    std::env::var("PVERIF_ROOT").unwrap_or_else(|_| "/verif".to_string())
+}
 
 #[derive(Clone, Copy, PartialEq, Eq, Debug)]
 pub enum Tier {
@@ -97,7 +99,7 @@ pub struct Known {
 
 impl Known {
     pub fn load(prop: &str) -> Known {
-        let p = Path::new(VERIF_DIR).join("known_findings.json");
+        let p = Path::new(&verif_dir()).join("known_findings.json");
         let entries = match std::fs::read_to_string(&p) {
             Ok(s) => {
                 let f: FindingsFile = serde_json::from_str(&s).expect("known_findings.json must parse");
@@ -230,7 +232,7 @@ pub struct ReplayFile {
 }
 
 fn list_replays(id: &str) -> Vec<PathBuf> {
-    let dir = Path::new(VERIF_DIR).join("replays").join(id);
+    let dir = Path::new(&verif_dir()).join("replays").join(id);
     let mut v: Vec<PathBuf> = match std::fs::read_dir(&dir) {
         Ok(rd) => rd
             .filter_map(|e| e.ok())
@@ -252,7 +254,7 @@ pub fn seed_from_env() -> u64 {
 }
 
 fn write_replay<C: Serialize>(id: &str, case: &C, v: &Violation, found_by: &str, seed: u64) -> PathBuf {
-    let dir = Path::new(VERIF_DIR).join("replays").join("_found");
+    let dir = Path::new(&verif_dir()).join("replays").join("_found");
     let _ = std::fs::create_dir_all(&dir);
     let d = digest(case);
     let path = dir.join(format!("{}-{:016x}.json", id, d));
@@ -378,7 +380,7 @@ pub fn drive<P: Property>(p: &P, tier: Tier) -> i32 {
             }
             // witness bookkeeping for KNOWN-FINDING lines
             for f in &known.entries {
-                if f.witness.as_deref().map(|w| path.ends_with(w) || Path::new(VERIF_DIR).join(w) == path).unwrap_or(false) {
+                if f.witness.as_deref().map(|w| path.ends_with(w) || Path::new(&verif_dir()).join(w) == path).unwrap_or(false) {
                     let st = if out.known_hits.contains_key(&f.key) {
                         "witness reproduces"
                     } else if out.violation.is_some() {
@@ -548,7 +550,7 @@ pub fn drive<P: Property>(p: &P, tier: Tier) -> i32 {
         "known_findings": known_lines,
         "harness_errors": harness_errors,
     });
-    let evdir = Path::new(VERIF_DIR).join("evidence");
+    let evdir = Path::new(&verif_dir()).join("evidence");
     let _ = std::fs::create_dir_all(&evdir);
     let _ = std::fs::write(
         evdir.join(format!("{}.json", id)),
